@@ -388,21 +388,7 @@ func (sc *SizeCalculator) FindSplitPoint(text string, boundaries []Boundary) int
 // FindSplitPointAt finds the best position to split text at a specific size limit
 func (sc *SizeCalculator) FindSplitPointAt(text string, boundaries []Boundary, targetSize int, targetUnit SizeUnit) int {
 	// Convert target to character position estimate
-	var targetPos int
-	switch targetUnit {
-	case SizeUnitCharacters:
-		targetPos = targetSize
-	case SizeUnitTokens:
-		targetPos = int(float64(targetSize) / sc.config.TokensPerChar)
-	case SizeUnitWords:
-		targetPos = targetSize * 6 // Rough estimate: 6 chars per word
-	case SizeUnitSentences:
-		targetPos = targetSize * 80 // Rough estimate: 80 chars per sentence
-	case SizeUnitParagraphs:
-		targetPos = targetSize * 400 // Rough estimate: 400 chars per paragraph
-	default:
-		targetPos = targetSize
-	}
+	targetPos := sc.estimatePosition(targetSize, targetUnit)
 
 	if targetPos >= len(text) {
 		return len(text)
@@ -418,6 +404,24 @@ func (sc *SizeCalculator) FindSplitPointAt(text string, boundaries []Boundary, t
 
 	// Fall back to finding a sentence boundary
 	return findSentenceEndNear(text, targetPos)
+}
+
+// estimatePosition converts a size in the given unit to a character position estimate
+func (sc *SizeCalculator) estimatePosition(size int, unit SizeUnit) int {
+	switch unit {
+	case SizeUnitCharacters:
+		return size
+	case SizeUnitTokens:
+		return int(float64(size) / sc.config.TokensPerChar)
+	case SizeUnitWords:
+		return size * 6 // Rough estimate: 6 chars per word
+	case SizeUnitSentences:
+		return size * 80 // Rough estimate: 80 chars per sentence
+	case SizeUnitParagraphs:
+		return size * 400 // Rough estimate: 400 chars per paragraph
+	default:
+		return size
+	}
 }
 
 // findBestBoundaryNear finds the highest-scored boundary within tolerance of position
@@ -506,6 +510,17 @@ func findWordBoundaryNear(text string, targetPos int) int {
 	return targetPos
 }
 
+// wordBoundaryBefore returns the position just after the last space or newline
+// at or before pos, if there is one past the start of the text.
+func wordBoundaryBefore(text string, pos int) (int, bool) {
+	for i := pos; i > 0; i-- {
+		if text[i] == ' ' || text[i] == '\n' {
+			return i + 1, true
+		}
+	}
+	return 0, false
+}
+
 // isSentenceEndChar checks if a character typically ends a sentence
 func isSentenceEndChar(c byte) bool {
 	return c == '.' || c == '!' || c == '?'
@@ -525,6 +540,15 @@ func (sc *SizeCalculator) SplitToSize(text string, boundaries []Boundary) []stri
 
 		// Find split point using max limit (not target) to ensure chunks fit
 		splitPos := sc.FindSplitPointAt(remaining, boundaries, sc.config.Max.Value, sc.config.Max.Unit)
+
+		// The searches may settle on a boundary a little after the limit. Max is
+		// a hard limit: while the text offers a break opportunity within it,
+		// split there instead.
+		if limit := sc.estimatePosition(sc.config.Max.Value, sc.config.Max.Unit); splitPos > limit && limit < len(remaining) {
+			if pos, ok := wordBoundaryBefore(remaining, limit); ok {
+				splitPos = pos
+			}
+		}
 		if splitPos <= 0 || splitPos >= len(remaining) {
 			// Can't split further, add remaining as-is
 			chunks = append(chunks, remaining)
